@@ -603,7 +603,9 @@ impl TransportManager {
         let address_record = AddressRecord::from_multiaddr(address)
             .ok_or(Error::AddressError(AddressError::PeerIdMissing))?;
 
-        if self.listen_addresses.read().contains(address_record.as_ref()) {
+        if self.listen_addresses.read().contains(address_record.as_ref())
+            || self.transport_manager_handle.is_local_address(address_record.as_ref())
+        {
             return Err(Error::TriedToDialSelf);
         }
 
